@@ -91,6 +91,8 @@ def ops():
         {"op": "attach_pattern", "what": "foreign"},
         {"op": "attach_pattern", "what": "none"},
         {"op": "attach_pattern", "what": "clone"},
+        {"op": "bulk", "how": "gen_partial"},
+        {"op": "bulk", "how": "fn"},
         {"op": "reload"},
     ]
     return o
@@ -138,6 +140,7 @@ class Own:
                 f = sorted(x for x in os.listdir(d) if x.endswith(".sunvox"))[0]
                 L["p"] = rv.read_sunvox_file(os.path.join(d, f))
             L["pristine"] = False
+            L["origin"] = "loaded"
             return "ok"
         L["pristine"] = False
         try:
@@ -196,15 +199,29 @@ class Own:
                     if S.diff(sq, S.project(L["q"])) or S.diff(sp, S.project(p)) or L["qpat"].project is not L["q"]:
                         L["viol"].append(C.viol("refused-attach-changes-state", {"op": "attach_pattern_foreign"}, {}))
                 else:
-                    pat = rv.Pattern(tracks=1, lines=1) if w == "fresh" else rv.PatternClone(source=0) if w == "clone" else None
+                    pat = rv.Pattern(tracks=2, lines=2) if w == "fresh" else rv.PatternClone(source=0) if w == "clone" else None
                     idx = p.attach_pattern(pat)
                     if idx != len(before_pats) or p.patterns[:-1] != before_pats or p.patterns[-1] is not pat:
                         L["viol"].append(C.viol("pattern-placement", {"what": w}, {"index": idx}))
                     before_pats = before_pats + [pat]
+            elif k == "bulk":
+                from rv.note import Note
+                from rv.pattern import Pattern
+
+                pats = [x for x in p.patterns if isinstance(x, Pattern)]
+                if not pats:
+                    return "skip"
+                if op["how"] == "fn":
+                    pats[0].set_via_fn(lambda pat, line, track: Note(module=1))
+                else:
+                    def gen(pat, data):
+                        yield 0, 0, Note(module=2)
+                    pats[0].set_via_gen(gen)
             elif k == "reload":
                 if sum(1 for x in p.modules if isinstance(x, Output)) > 1:
                     return "skip"  # a project with a second Output is not a savable in-domain project
                 L["p"] = C.load_bytes(C.save(p))
+                L["origin"] = "loaded"
                 return "ok"
         except (ModuleOwnershipError, PatternOwnershipError) as e:
             outcome = "raise:" + type(e).__name__
@@ -225,15 +242,25 @@ class Own:
         elif expect_same and k not in ("attach_none",):
             if len(p.modules) != len(before_mods) or any(a is not b for a, b in zip(p.modules, before_mods)):
                 L["viol"].append(C.viol("modules-moved", {"op": k}, {}))
-        if k != "iadd_list" and not k.startswith("attach_pattern"):
+        if k != "iadd_list" and not k.startswith("attach_pattern") and k != "bulk":
             if len(p.patterns) != len(before_pats) or any(a is not b for a, b in zip(p.patterns, before_pats)):
                 L["viol"].append(C.viol("patterns-changed", {"op": k}, {}))
         return outcome
 
-    def canon(self, L):
+    def layout(self, L):
         p = L["p"]
         return (tuple(type(m).__name__ if m is not None else None for m in p.modules),
                 tuple(type(x).__name__ if x is not None else None for x in p.patterns))
+
+    def canon(self, L):
+        """Layout PLUS how the project object was obtained (built / loaded) and every private scalar
+        attribute of the project: two states with the same layout may still differ in hidden
+        bookkeeping (a cached count, a flag), and merging them would hide exactly the histories
+        that go through save/load.  Over-fine canonical forms only cost time."""
+        p = L["p"]
+        hidden = tuple(sorted((k, v) for k, v in vars(p).items()
+                              if k.startswith("_") and isinstance(v, (int, bool, str, type(None)))))
+        return self.layout(L) + (L.get("origin", "built"), hidden)
 
     def invariant(self, L):
         from rv.modules.output import Output
@@ -255,6 +282,22 @@ class Own:
                 vs.append(C.viol("pattern-project-mismatch", {"inv": "pattern"}, {"position": i}))
         # note.mod resolution for every module number 0..len+1
         pats = [x for x in p.patterns if isinstance(x, Pattern)]
+        for pat in pats:
+            for line in pat.data:
+                for nt0 in line:
+                    keep0 = nt0.module
+                    for num in (0, 1, len(p.modules), len(p.modules) + 1):
+                        nt0.module = num
+                        want = None if num == 0 or num - 1 >= len(p.modules) else p.modules[num - 1]
+                        try:
+                            got = nt0.mod
+                        except Exception as e:
+                            vs.append(C.viol("note-mod-raises", {"inv": "note.mod", "cell": "any"}, {"number": num, "error": repr(e)}))
+                            break
+                        if got is not want:
+                            vs.append(C.viol("note-mod-resolution", {"inv": "note.mod", "cell": "any"}, {"number": num}))
+                            break
+                    nt0.module = keep0
         if pats:
             nt = pats[0].data[0][0]
             keep = nt.module
@@ -328,6 +371,9 @@ class Own:
             if w == "foreign":
                 return "raise:PatternOwnershipError"
             m["pats"].append({"fresh": "Pattern", "clone": "PatternClone", "none": None}[w])
+        elif k == "bulk":
+            if "Pattern" not in m["pats"]:
+                return "skip"
         elif k == "reload":
             if mods.count("Output") > 1:
                 return "skip"
@@ -340,7 +386,7 @@ class Own:
         opk = op["op"] + (":" + str(op.get("what")) if "what" in op else "")
         if outcome != expected:
             vs.append(C.viol("outcome", {"op": opk}, {"expected": expected, "observed": outcome}))
-        mods, pats = self.canon(L)
+        mods, pats = self.layout(L)
         if m["mods"] is None:
             m["mods"] = list(mods)
             m["pats"] = list(pats)
